@@ -188,19 +188,10 @@ impl Connection {
                     self.last_activity = Instant::now();
                 }
                 Err(e) if e.kind() == ErrorKind::WouldBlock => {
-                    // Can't write more right now, maintain offset
-                    // Improved backoff for pipelining scenarios
-                    attempts += 1;
-                    if attempts < MAX_ATTEMPTS {
-                        // Progressive backoff for better pipelining handling
-                        let wait_time = std::time::Duration::from_millis(attempts as u64 * 10);
-                        std::thread::sleep(wait_time);
-                        continue;
-                    } else {
-                        // After max attempts, return error but don't close connection
-                        // This allows retry on next processing cycle
-                        return Err(FerrousError::Connection("Write would block after max attempts".into()));
-                    }
+                    // The socket takes no more right now (the client is still reading what it has): that is
+                    // not an error. Keep the rest - `has_pending_writes()` stays true and the next cycle goes
+                    // on from `write_offset` - and do not sleep on the command thread
+                    return Ok(());
                 }
                 Err(e) if e.kind() == ErrorKind::Interrupted => {
                     // Retry interrupted operations
